@@ -516,6 +516,24 @@ class Executor:
     def ev_Tuple(self, e, env):
         return tuple(self.ev(x, env) for x in e.elts)
 
+    def ev_Slice(self, e, env):
+        # a slice inside a tuple index (M[a:b, c:d]); plain sequence slices are handled by self.slice
+        if e.step is not None:
+            raise Unsupported("slice step")
+        return ("slice", self.ev(e.lower, env) if e.lower is not None else None, self.ev(e.upper, env) if e.upper is not None else None)
+
+    def _is_slice(self, v):
+        return isinstance(v, tuple) and len(v) == 3 and isinstance(v[0], str) and v[0] == "slice"
+
+    def _norm_slice(self, sl, n, node):
+        """(offset, length) of a[lo:hi] on an axis of length n - the non-negative case with python's clamping (obligation safe.slice-nonneg)"""
+        lo = z3.IntVal(0) if sl[1] is None else to_int(lift(sl[1]))
+        hi = n if sl[2] is None else to_int(lift(sl[2]))
+        self.require(z3.And(lo >= 0, hi >= 0), "safe.slice-nonneg", node)
+        hi2 = z3.If(hi > n, n, hi)
+        lo2 = z3.If(lo > hi2, hi2, lo)
+        return z3.simplify(lo2), z3.simplify(hi2 - lo2)
+
     def ev_List(self, e, env):
         items = []
         for x in e.elts:
@@ -1042,11 +1060,21 @@ class Executor:
             im = z3.Lambda([a, b], z3.Select(h.im, z3.Select(rs.arr, a), z3.Select(cs.arr, b)))
             return self.alloc(Mat(rs.len, cs.len, re, im))
         if isinstance(h, Mat):
+            if isinstance(idx, tuple) and len(idx) == 2 and self._is_slice(idx[0]) and self._is_slice(idx[1]):
+                # M[a:b, c:d]: the block as a new matrix (numpy returns a view; the blocks read here are only copied from)
+                ro, rl = self._norm_slice(idx[0], h.nr, node)
+                co, cl = self._norm_slice(idx[1], h.nc, node)
+                a, b = z3.Int("a!blk"), z3.Int("b!blk")
+                return self.alloc(Mat(rl, cl, z3.Lambda([a, b], z3.Select(h.re, a + ro, b + co)), z3.Lambda([a, b], z3.Select(h.im, a + ro, b + co))))
             if isinstance(idx, tuple) and len(idx) == 2:
                 i = self.norm_index(idx[0], h.nr, node)
                 j = self.norm_index(idx[1], h.nc, node)
                 return self.mat_select(h, i, j)
         raise Unsupported(f"subscript of {h!r}")
+
+    def mat_transpose(self, h):
+        a, b = z3.Int("a!tr"), z3.Int("b!tr")
+        return Mat(h.nc, h.nr, z3.Lambda([a, b], z3.Select(h.re, b, a)), z3.Lambda([a, b], z3.Select(h.im, b, a)))
 
     def mat_select(self, h, i, j):
         """entry (i,j) as a scalar term.  For matrices built from identity/zeros by entry stores the store chain is walked,
@@ -1752,6 +1780,19 @@ class Executor:
             im = z3.Lambda([a, b], z3.Select(h.im, z3.Select(rs.arr, a), z3.Select(cs.arr, b)))
             return self.alloc(Mat(rs.len, cs.len, re, im))
         if isinstance(h, Mat):
+            if isinstance(idx, tuple) and len(idx) == 2 and self._is_slice(idx[0]) and self._is_slice(idx[1]):
+                # M[a:b, c:d] = B : B must have the shape of the block (numpy would otherwise broadcast or raise ValueError)
+                ro, rl = self._norm_slice(idx[0], h.nr, node)
+                co, cl = self._norm_slice(idx[1], h.nc, node)
+                v = self.deref(val) if isinstance(val, Ref) else None
+                if not isinstance(v, Mat):
+                    raise Unsupported("block store of a non-matrix")
+                self.require(z3.And(v.nr == rl, v.nc == cl), "safe.ValueError-block-shape", node)
+                a, b = z3.Int("a!blk"), z3.Int("b!blk")
+                inb = z3.And(ro <= a, a < ro + rl, co <= b, b < co + cl)
+                self.store(base, Mat(h.nr, h.nc, z3.Lambda([a, b], z3.If(inb, z3.Select(v.re, a - ro, b - co), z3.Select(h.re, a, b))),
+                                     z3.Lambda([a, b], z3.If(inb, z3.Select(v.im, a - ro, b - co), z3.Select(h.im, a, b)))), node, "[a:b,c:d] =")
+                return
             if isinstance(idx, tuple) and len(idx) == 2:
                 i = self.norm_index(idx[0], h.nr, node)
                 j = self.norm_index(idx[1], h.nc, node)
